@@ -40,7 +40,9 @@ RULE = ("species 1..60 atoms (quick <= 15) with coordinates +-{1e-6..1e3} incl. 
         "mult 1..5 (valid parity), solvent in {none + 7}, x {orca,g09,g16,nwchem,qchem,xtb,mopac} x {sp,grad,opt,optts,hess} default and "
         "custom keyword sets x distance/Cartesian constraints x point charges x active bonds x cores {1..16} x memory; plus xyz / trajectory "
         "writers; regeneration sequences (calculation register enabled, same directory: generate, change geometry / cores / memory / "
-        "constraints, generate again, re-read); TS optimisations of solvated species with every job of a multi-job input checked; a case is non-trivial when an input file was produced and re-read; distinct by the full case specification")
+        "constraints, generate again, re-read); the SAME species object updated through its API (constraints.update, coordinates, "
+        "charge) between two inputs; inputs the Gaussian wrapper regenerates itself after `Bend failed for angle`; distance constraints "
+        "handed over as Distance in nm/pm/bohr; memory as Allocation in GB; NWChem mp2/ccsd/scf keyword sets (no dft block); TS optimisations of solvated species with every job of a multi-job input checked; a case is non-trivial when an input file was produced and re-read; distinct by the full case specification")
 
 # Every function the hand-written parts were written from: the documented layouts / readers of Model.v and the
 # Python readers, expectation tables and oracles below mirror the block structure of these writers (which section
@@ -94,6 +96,17 @@ PINS = (
        ("autode/constraints.py", "Constraints.any"), ("autode/constraints.py", "DistanceConstraints"),
        ("autode/point_charges.py", "PointCharge"),
        ("autode/atoms.py", "Atom.__init__"), ("autode/atoms.py", "DummyAtom.__init__"), ("autode/atoms.py", "Atoms.copy"),
+       ("autode/atoms.py", "Atoms.__add__"), ("autode/atoms.py", "Atoms.__radd__"), ("autode/atoms.py", "Atom.coord"),
+       ("autode/constraints.py", "Constraints.__init__"), ("autode/constraints.py", "Constraints.update"),
+       ("autode/constraints.py", "Constraints.n_cartesian"), ("autode/constraints.py", "Constraints.n_distance"),
+       ("autode/wrappers/G09.py", "_rerun_angle_failure"), ("autode/wrappers/G09.py", "_run_hessian"),
+       ("autode/wrappers/G09.py", "G09.terminated_normally_in"), ("autode/wrappers/G09.py", "G09.execute"),
+       ("autode/species/species.py", "Species.atoms"), ("autode/species/species.py", "Species.coordinates"),
+       ("autode/species/species.py", "Species.charge"),
+       ("autode/species/species.py", "Species.mult"), ("autode/species/species.py", "Species.solvent"),
+       ("autode/calculations/executors.py", "CalculationExecutorO.__init__"),
+       ("autode/calculations/executors.py", "CalculationExecutorO._max_opt_cycles"),
+       ("autode/config.py", "_ConfigClass.__setattr__"),
        ("autode/utils.py", "run_external"), ("autode/utils.py", "work_in_tmp_dir"),
        ("autode/utils.py", "run_in_tmp_environment")]
 )
@@ -473,6 +486,13 @@ def gen_spec(rng, prog, kwtype, nmax):
             "dist": [], "cart": [], "pcs": [], "bonds": [], "n_cores": rng.choice([1, 1, 2, 4, 8, 16]),
             "max_core_mb": rng.choice([4000.0, 1000.0, 1500.0, 500.0, 750.5, 2048.0]), "max_cycles": None,
             "molecule": rng.random() < 0.6, "orca_v5": rng.random() < 0.5}
+    spec["dist_unit"] = None
+    spec["mem_unit"] = rng.choice(["MB", "MB", "GB"])
+    if spec["mem_unit"] == "GB" and spec["max_core_mb"] in (750.5, 2048.0):
+        spec["max_core_mb"] = 2000.0      # x GB * 1000 must be exact in binary floating point
+    if prog == "nwchem" and rng.random() < 0.3:
+        spec["kwsrc"] = rng.choice(sorted(NW_SETS))
+        spec["solvent"] = None            # NWChem supports solvent for DFT only (documented rejection)
     if prog == "orca" and spec["solvent"]:
         spec["solv_type"] = rng.choice(["cpcm", "smd"])
     if n >= 2 and rng.random() < 0.5:
@@ -487,6 +507,8 @@ def gen_spec(rng, prog, kwtype, nmax):
         for i, j, _ in spec["dist"]:
             if all(abs(atoms[i][c] - atoms[j][c]) < 1e-3 for c in (1, 2, 3)):
                 atoms[j][1] += 1.25
+        if spec["dist"] and rng.random() < 0.3:
+            spec["dist_unit"] = rng.choice(["nm", "pm", "a0"])     # the user gives the constraint as a Distance in other units
     if rng.random() < 0.4:
         k = rng.randint(1, min(n, 6))
         spec["cart"] = sorted(rng.sample(range(n), k))
@@ -510,6 +532,12 @@ CUSTOM = {   # distinctive extra keywords a user could request, and typed keywor
     "qchem": (["max_diis_cycles 200", "thresh 12"], {"func": "b3lyp", "basis": "def2-TZVP", "disp": "D3_BJ"}),
     "xtb": (["--acc", "0.5"], None),
     "mopac": (["PM7", "PRECISE", "LET"], None),
+}
+NW_SETS = {   # NWChem inputs without a dft block: the multiplicity has to go into an scf block (nopen)
+    "nw-mp2": ["task mp2 energy"],
+    "nw-ccsd": ["task ccsd energy"],
+    "nw-scf-tail": ["task scf energy"],                              # NWChem.py:121-125
+    "nw-scf-block": ["scf\n  maxiter 100\nend", "task scf energy"],   # NWChem.py:104-108
 }
 TYPE_KW = {  # a calculation-type keyword in each program's own syntax
     "orca": {"sp": "SP", "grad": "EnGrad", "opt": "Opt", "optts": "OptTS", "hess": "Freq"},
@@ -540,7 +568,9 @@ def keywords_for(spec, method):
     prog, kt = spec["prog"], spec["kwtype"]
     cls = {"sp": kws.SinglePointKeywords, "grad": kws.GradientKeywords, "opt": kws.OptKeywords,
            "optts": kws.OptTSKeywords, "hess": kws.HessianKeywords}[kt]
-    if spec["kwsrc"] == "default":
+    if spec["kwsrc"] in NW_SETS:
+        kw = cls([kws.BasisSet(name="def2-SVP", nwchem="Def2-SVP")] + list(NW_SETS[spec["kwsrc"]]))
+    elif spec["kwsrc"] == "default":
         base = {"sp": method.keywords.sp, "grad": method.keywords.grad, "opt": method.keywords.opt,
                 "optts": method.keywords.opt_ts, "hess": method.keywords.hess}[kt]
         kw = base.copy()
@@ -583,8 +613,10 @@ def expected_keyword_words(spec, kw, method, n_atoms, heavy):
         low = (tr or "").lower()
         why = None
         if isinstance(k, kws.MaxOptCycles):
-            if prog in ("nwchem", "xtb", "mopac"):
-                why = "cycle limit is applied by the package's own optimiser / dropped by design"
+            if prog == "nwchem":
+                why = "NWChem never optimises itself: CalculationExecutorO._max_opt_cycles hands the limit to the package's optimiser"
+            elif prog in ("xtb", "mopac"):
+                why = "DROPPED"        # reported under its own narrow key (check_case)
             elif n_atoms == 1:
                 why = "no optimisation (hence no cycle limit) for a single atom"
             tr = str(int(k))
@@ -629,6 +661,12 @@ def snapshot(mol):
     }
 
 
+def in_unit(d, unit):
+    """magnitude of the distance d (Angstrom) expressed in `unit`, by the package's own (C06-verified) conversion"""
+    from autode.values import Distance
+    return float(Distance(d, units="ang").to(unit))
+
+
 def build_species(spec):
     import autode as ade
     from autode.atoms import Atom
@@ -636,7 +674,13 @@ def build_species(spec):
     cls = ade.Molecule if spec.get("molecule") else ade.Species
     mol = cls(name="m", atoms=atoms, charge=spec["charge"], mult=spec["mult"], solvent_name=spec["solvent"])
     if spec["dist"]:
-        mol.constraints.distance = {(i, j): d for i, j, d in spec["dist"]}
+        if spec.get("dist_unit"):
+            from autode.values import Distance
+            # the SAME physical distance d (Angstrom), handed over in another unit
+            mol.constraints.distance = {(i, j): Distance(in_unit(d, spec["dist_unit"]), units=spec["dist_unit"])
+                                        for i, j, d in spec["dist"]}
+        else:
+            mol.constraints.distance = {(i, j): d for i, j, d in spec["dist"]}
     if spec["cart"]:
         mol.constraints.cartesian = list(spec["cart"])
     for i, j in spec.get("bonds", []):
@@ -645,11 +689,16 @@ def build_species(spec):
     return mol
 
 
+# narrow keys of standing findings: derived streams report them under the same key (not as a new regression class)
+PASS_KEYS = {"distance-constraint-written-as-moved-atoms", "keyword-dropped:MaxOptCycles", "dist-constraint-units-ignored",
+             "mult-missing-without-dft-or-scf-task"}
+
+
 class Rejected(Exception):
     pass
 
 
-def run_case(spec, workdir, registry=False):
+def run_case(spec, workdir, registry=False, mol=None):
     """Generate the input for one case on the implementation.  -> result dict
     registry=True leaves the package's default calculation register (.autode_calculations) enabled."""
     import autode as ade
@@ -673,14 +722,20 @@ def run_case(spec, workdir, registry=False):
             print("Program Version " + ("5.0.3" if spec.get("orca_v5") else "4.2.1"), file=f)
 
     try:
-        ade.Config.max_core = spec["max_core_mb"]
+        if spec.get("mem_unit") == "GB":
+            from autode.values import Allocation
+            ade.Config.max_core = Allocation(spec["max_core_mb"] / 1000.0, units="GB")
+        else:
+            ade.Config.max_core = spec["max_core_mb"]
         method = method_for(spec["prog"])
         if spec["prog"] == "orca":
             method.path = "orca"
             if spec["solv_type"]:
                 import autode.wrappers.keywords.implicit_solvent_types as solv
                 method.implicit_solvation_type = getattr(solv, spec["solv_type"])
-        mol = build_species(spec)
+        if mol is None:
+            mol = build_species(spec)
+        res["mol"] = mol
         res["n_heavy"] = sum(1 for a in mol.atoms if a.atomic_number >= 37)
         kw = keywords_for(spec, method)
         pcs = [PointCharge(q, x=x, y=y, z=z) for q, x, y, z in spec["pcs"]] or None
@@ -803,6 +858,17 @@ def check_case(spec, res):
     ref, moved = spec["atoms"], set()
     if prog == "mopac" and spec["dist"]:
         ref, moved = mopac_expected_atoms(spec)
+        if spec.get("dist_unit") and len(P["atoms"]) == n:
+            def close_to(R_):
+                return all(a[0] == b[0] and all(abs(a[1 + c] - frac(b[1 + c])) <= TOL for c in range(3)) for a, b in zip(P["atoms"], R_))
+            raw, _ = mopac_expected_atoms({**spec, "dist": [[i, j, in_unit(d, spec["dist_unit"])] for i, j, d in spec["dist"]]})
+            if close_to(raw) and not close_to(ref):
+                i, j, d = spec["dist"][0]
+                F.append((f"{site}|dist-constraint-units-ignored",
+                          f"constraint {i}-{j} given as Distance({in_unit(d, spec['dist_unit'])!r}, units={spec['dist_unit']!r}) = {d!r} A: "
+                          f"the atoms are moved to {in_unit(d, spec['dist_unit'])!r} A apart (the magnitude is used as if it were Angstrom)"))
+                ref, res["units_ignored"] = raw, True
+                res["ref_override"] = raw
     if len(P["atoms"]) != n:
         F.append((f"{site}|atom-count", f"{len(P['atoms'])} atom lines for {n} atoms"))
     else:
@@ -828,7 +894,7 @@ def check_case(spec, res):
             for i, j, d in spec["dist"]:
                 cnt[i] = cnt.get(i, 0) + 1
                 cnt[j] = cnt.get(j, 0) + 1
-            for i, j, d in spec["dist"] if prog == "mopac" else []:
+            for i, j, d in spec["dist"] if (prog == "mopac" and not res.get("units_ignored")) else []:
                 if cnt[i] == 1 and cnt[j] == 1:
                     r = math.sqrt(sum(float(P["atoms"][i][1 + c] - P["atoms"][j][1 + c]) ** 2 for c in range(3)))
                     if abs(r - d) > 3e-5:
@@ -848,8 +914,13 @@ def check_case(spec, res):
                 F.append((f"{prog}.execute|mult", f"--uhf {flag('--uhf')} for multiplicity {spec['mult']}"))
     if P["charge"] != spec["charge"]:
         F.append((f"{site}|charge", f"charge {P['charge']} in the file, species has {spec['charge']}"))
-    if P["mult"] != spec["mult"] and not (prog == "nwchem" and P["mult"] is None and not any(
-            w in " ".join(res.get("requested_kw", [])).lower() for w in ("dft", "scf", "functional"))):
+    if prog == "nwchem" and P["mult"] is None:
+        # no `mult` (dft) / `nopen` (scf) line at all: NWChem then assumes a closed-shell singlet
+        if spec["mult"] != 1:
+            F.append((f"{site}|mult-missing-without-dft-or-scf-task",
+                      f"the input has no `mult`/`nopen` line (keywords {res.get('requested_kw')}): NWChem runs a singlet, "
+                      f"the species has multiplicity {spec['mult']}"))
+    elif P["mult"] != spec["mult"]:
         F.append((f"{site}|mult", f"multiplicity {P['mult']} in the file, species has {spec['mult']}"))
     # cores / memory
     nc, mem = spec["n_cores"], Fraction(spec["max_core_mb"])
@@ -929,6 +1000,13 @@ def check_case(spec, res):
             else:
                 tol = Fraction(1, 10000) if prog == "xtb" else TOL
                 for pr, (d, txt) in got_d.items():
+                    if d is not None and spec.get("dist_unit") and abs(d - frac(want_d[pr])) > tol and \
+                            abs(d - frac(in_unit(want_d[pr], spec["dist_unit"]))) <= tol:
+                        F.append((f"{site}|dist-constraint-units-ignored",
+                                  f"constraint {pr} given as Distance({in_unit(want_d[pr], spec['dist_unit'])!r}, units="
+                                  f"{spec['dist_unit']!r}) = {want_d[pr]!r} A: the file says {txt} (the magnitude is written as if it were Angstrom)"))
+                        res["units_ignored"] = True
+                        break
                     if d is None or abs(d - frac(want_d[pr])) > tol:
                         F.append((f"{site}|dist-value", f"constrained distance {pr}: {txt} in the file, requested {want_d[pr]!r}"))
         got_c = sorted(i for i, _ in P["cart"])
@@ -981,12 +1059,28 @@ def check_case(spec, res):
     hay = " ".join(res["files"].values()).lower() + " " + " ".join(p for p in params if p).lower()
     haywords = set(words_of(hay))
     for desc, words, why in res["kw_expected"]:
-        if why or (prog == "xtb" and not params):     # xTB takes its keywords on the command line only
+        if prog == "xtb" and not params:      # xTB takes its keywords on the command line only
+            continue
+        if why == "DROPPED":
+            # xTB (`--cycles N`) and MOPAC (`CYCLES=N`) have a cycle limit, the wrappers drop the request silently
+            if prog == "mopac" and not any(w.startswith("cycles") for w in haywords):
+                F.append((f"{site}|keyword-dropped:MaxOptCycles", f"requested {desc} is filtered out of the MOPAC keyword line "
+                          "(MOPAC.py:31-35) although MOPAC has CYCLES=n; it is neither written nor rejected"))
+            if prog == "xtb" and "--cycles" not in params:
+                F.append((f"{prog}.execute|keyword-dropped:MaxOptCycles", f"requested {desc} is removed from the keywords before the "
+                          "command line is built (XTB.py:194-197) although xtb has --cycles; it is neither passed nor rejected"))
+            continue
+        if why:
             continue
         missing = [w for w in words if w not in haywords and w not in hay]
         if missing:
             F.append((f"{site}|keyword-dropped", f"requested keyword {desc} does not appear in the input (missing {missing})"))
             break
+    if prog == "xtb" and params:
+        xc = [fn for fn in res["files"] if fn.startswith("xcontrol")]
+        if xc and not ("--input" in params and params[params.index("--input") + 1] == xc[0]):
+            F.append((f"{prog}.execute|xcontrol-not-passed", f"constraints / point charges were written to {xc[0]} but the command line "
+                      f"{params} does not pass it with --input"))
     return F, P
 
 
@@ -1010,6 +1104,8 @@ def coq_terms_for(spec, res, P, ctx):
     ref, moved = spec["atoms"], set()
     if prog == "mopac" and spec["dist"]:
         ref, moved = mopac_expected_atoms(spec)
+        if res.get("ref_override"):
+            ref = res["ref_override"]
     wp = "XYZ" if prog == "xtb" else p      # the xTB input is the xyz writer
     if len(P["atom_lines"]) == len(ref):
         for ka, (ln, a, pa) in enumerate(zip(P["atom_lines"], ref, P["atoms"])):
@@ -1046,7 +1142,9 @@ def coq_terms_for(spec, res, P, ctx):
             w = want_d[(min(i, j), max(i, j))]
             parts.append(f"check_int {p} LDist FI {cs(ln)} {zz(i)}")
             parts.append(f"check_int {p} LDist FJ {cs(ln)} {zz(j)}")
-            if DEC.match(txt):
+            if res.get("units_ignored"):
+                ctx.hist("coq-lines", "distance-units-ignored-value-skipped")
+            elif DEC.match(txt):
                 tol = "(Qmake 1 10000)" if prog == "xtb" else "tol5"
                 parts.append(f"check_q {p} LDist FDist {cs(ln)} {tol} {qq(w)}")
                 parts.append(f"check_render {p} LDist (mk_env \"X\" 0 0 0 0 {qq(w)} 0 0 {zz(i)} {zz(j)} 0 {cs(txt)} \"0\") {cs(ln)}")
@@ -1063,6 +1161,7 @@ def coq_terms_for(spec, res, P, ctx):
         for i, j, ln in P.get("freeze", []):
             parts.append(f"check_int {p} LDistFreeze FI {cs(ln)} {zz(i)}")
             parts.append(f"check_int {p} LDistFreeze FJ {cs(ln)} {zz(j)}")
+            parts.append(f"check_render {p} LDistFreeze (mk_env \"X\" 0 0 0 0 0 0 0 {zz(i)} {zz(j)} 0 \"0\" \"0\") {cs(ln)}")
     if spec["pcs"] and prog in ("orca", "g09", "g16", "nwchem", "xtb") and len(P["pcs"]) == len(spec["pcs"]):
         for g, w in zip(P["pcs"], spec["pcs"]):
             ln = g[4]
@@ -1072,6 +1171,7 @@ def coq_terms_for(spec, res, P, ctx):
                 parts.append(f"check_render {p} LPointCharge (mk_env \"X\" {qq(w[1])} {qq(w[2])} {qq(w[3])} {qq(w[0])} 0 0 0 0 0 0 \"0\" \"0\") {cs(ln)}")
         if P["pc_count"] is not None:
             parts.append(f"check_int {p} LNAtoms FN {cs(P['pc_count'][1])} {zz(len(spec['pcs']))}")
+            parts.append(f"check_render {p} LNAtoms (mk_env \"X\" 0 0 0 0 0 0 0 0 0 {zz(len(spec['pcs']))} \"0\" \"0\") {cs(P['pc_count'][1])}")
     return "all [" + ";\n    ".join(parts) + "]"
 
 
@@ -1120,13 +1220,217 @@ def regen_cases(ctx, rng, n_per_prog, nmax, workdir, fail):
             F, P = check_case(spec2, res2)
             for k, w in F:
                 site, cls = k.split("|", 1)
-                if cls == "distance-constraint-written-as-moved-atoms":
+                if cls in PASS_KEYS:
                     fail(k, w, rep)
                 else:
                     fail(f"{site}|regenerated-after-{what}-change:{cls}",
                          f"second generate_input in the same directory after the {what} changed: " + w, rep)
             if P is not None:
                 t = coq_terms_for(spec2, res2, P, ctx)
+                if t is not None:
+                    terms.append(t)
+                    descr.append(rep)
+    return terms, descr
+
+
+# ----------------------------------------------------------------------------- same species object updated between two files
+def apply_ops(mol, ops):
+    """Update a live species through its public API (the way user code / the package does between calculations)."""
+    import numpy as np
+    for op, arg in ops:
+        if op == "cart":
+            mol.constraints.update(cartesian=list(arg))
+        elif op == "dist":
+            mol.constraints.update(distance={(arg[0], arg[1]): arg[2]})
+        elif op == "coords":
+            mol.coordinates = np.array(arg)
+        elif op == "charge":
+            mol.charge = arg
+
+
+def sameobj_cases(ctx, rng, n_per_prog, nmax, workdir, fail):
+    """Write an input, update THE SAME species object (constraints.update, coordinates, charge), write again:
+    the second input must describe the updated species (covers state cached inside Species / Constraints / Atoms)."""
+    import copy
+    terms, descr = [], []
+    c = 0
+    for prog in PROGS:
+        for r in range(n_per_prog):
+            spec1 = gen_spec(rng, prog, "opt", max(4, nmax))
+            while len(spec1["atoms"]) < 4:
+                spec1 = gen_spec(rng, prog, "opt", max(4, nmax))
+            n = len(spec1["atoms"])
+            spec1.update({"pcs": [], "dist_unit": None, "cart": sorted(rng.sample(range(n), 2)), "solvent": None, "kwsrc": "default"})
+            spec1["mult"] = min(spec1["mult"], 3) if prog == "mopac" else spec1["mult"]
+            ops = []
+            spec2 = copy.deepcopy(spec1)
+            free = [k for k in range(n) if k not in spec1["cart"]]
+            newc = sorted(rng.sample(free, min(len(free), rng.choice([1, 2]))))
+            ops.append(["cart", newc])
+            spec2["cart"] = sorted(set(spec1["cart"]) | set(newc))
+            used = {(min(i, j), max(i, j)) for i, j, _ in spec1["dist"]}
+            a, b = sorted(rng.sample(range(n), 2))
+            if (a, b) not in used and rng.random() < 0.6 and not all(abs(spec1["atoms"][a][k] - spec1["atoms"][b][k]) < 1e-3 for k in (1, 2, 3)):
+                d = rng.choice([1.1, 1.75, 2.5])
+                ops.append(["dist", [a, b, d]])
+                spec2["dist"] = spec2["dist"] + [[a, b, d]]
+            if rng.random() < 0.5 and not spec2["dist"]:
+                newxyz = [[x + 0.5, y - 0.25, z + 0.125] for _, x, y, z in spec1["atoms"]]
+                ops.append(["coords", newxyz])
+                spec2["atoms"] = [[a_[0]] + xyz for a_, xyz in zip(spec1["atoms"], newxyz)]
+            if rng.random() < 0.4:
+                spec2["charge"] = spec1["charge"] + (2 if spec1["charge"] <= 0 else -2)
+                ops.append(["charge", spec2["charge"]])
+            mol = build_species(spec1)
+            res1 = run_case(spec1, os.path.join(workdir, f"s{c}a"), mol=mol)
+            rep = {"kind": "sameobj", "specs": [spec1, spec2], "ops": ops}
+            ctx.count("species-updated", (prog, repr(ops), repr(spec1)), res1["main"] is not None,
+                      sample={"prog": prog, "ops": [o for o, _ in ops], "n_atoms": n})
+            ctx.hist("species-updated", f"{prog}:{'+'.join(o for o, _ in ops)}")
+            c += 1
+            if res1["rejected"] or res1["error"]:
+                continue
+            apply_ops(mol, ops)
+            res2 = run_case(spec2, os.path.join(workdir, f"s{c}b"), mol=mol)
+            F, P = check_case(spec2, res2)
+            for k, w in F:
+                site, cls = k.split("|", 1)
+                if cls in PASS_KEYS:
+                    fail(k, w, rep)
+                else:
+                    fail(f"{site}|after-species-update:{cls}",
+                         f"input written after the same species object was updated by {[o for o, _ in ops]}: " + w, rep)
+            if P is not None:
+                t = coq_terms_for(spec2, res2, P, ctx)
+                if t is not None:
+                    terms.append(t)
+                    descr.append(rep)
+    return terms, descr
+
+
+# ----------------------------------------------------------------------------- inputs the wrappers regenerate themselves (retry paths)
+def fake_gaussian_log(inp_text, name):
+    """What a Gaussian run prints, as far as the wrapper reads it: the input orientation, an SCF energy and either a
+    normal termination or the 180-degree bend failure (first run only)."""
+    from autode.atoms import elements
+    lines = inp_text.split("\n")
+    S = sections(lines)
+    atoms = [ln.split() for ln in S[2][1:]] if len(S) > 2 else []
+    out = [" Entering Gaussian System", " Gaussian 09:  ES64L-G09RevD.01 24-Apr-2013",
+           "                         Input orientation:",
+           " ---------------------------------------------------------------------",
+           " Center     Atomic      Atomic             Coordinates (Angstroms)",
+           " Number     Number       Type             X           Y           Z",
+           " ---------------------------------------------------------------------"]
+    for i, a in enumerate(atoms):
+        out.append(f"  {i + 1:5d} {elements.index(a[0]) + 1:10d} {0:11d} {float(a[1]):15.6f} {float(a[2]):11.6f} {float(a[3]):11.6f}")
+    out += [" ---------------------------------------------------------------------",
+            " SCF Done:  E(RPBE1PBE) =  -40.4155012345     A.U. after    9 cycles"]
+    if name.endswith("_cartesian") or name.endswith("_internal"):
+        out += [" Optimization completed.", " Normal termination of Gaussian 09 at Sat Jan  9 11:00:00 2021."]
+    else:
+        out += [" Bend failed for angle     2 -     1 -     3", " Error termination via Lnk1e in /g09/l103.exe"]
+    return "\n".join(out) + "\n"
+
+
+def retry_one(spec, wd):
+    """Run the calculation with a recorder in place of Gaussian that reports the bend failure for the first input.
+    -> result dict holding the wrapper-regenerated <name>_internal.com (main None if the retry path was not taken)"""
+    import autode as ade
+    import autode.wrappers.G09 as g09_mod
+    from autode.calculations import Calculation
+    prog, n = spec["prog"], len(spec["atoms"])
+    os.makedirs(wd, exist_ok=True)
+    here = os.getcwd()
+    os.chdir(wd)
+    old_core = ade.Config.max_core
+    os.environ["AUTODE_FIXUNIQUE"] = "False"
+    res = {"files": {}, "main": None, "error": None, "rejected": None, "before": None, "after": None, "kw_expected": [],
+           "requested_kw": [], "solvent_names": None, "listing": []}
+
+    def fake_run(params, output_filename, stderr_to_log=True):
+        with open(output_filename, "w") as f:
+            f.write(fake_gaussian_log(open(params[1]).read(), os.path.basename(params[1])[:-4]))
+    try:
+        ade.Config.max_core = spec["max_core_mb"]
+        method = method_for(prog)
+        method.path = sys.executable           # only has to exist: the program is never started
+        mol = build_species(spec)
+        kw = keywords_for(spec, method)
+        res["before"] = snapshot(mol)
+        calc = Calculation(name="b", molecule=mol, method=method, keywords=kw, n_cores=spec["n_cores"])
+        res["requested_kw"] = [repr(k) for k in calc.input.keywords]
+        res["kw_expected"] = expected_keyword_words(spec, calc.input.keywords, method, n, False)
+        run_error = None
+        with patched(g09_mod, "run_external", fake_run):
+            try:
+                calc.run()
+            except Exception as e:   # noqa
+                run_error = f"{type(e).__name__}: {e}"
+        res["listing"] = sorted(os.listdir("."))
+        internal = [fn for fn in res["listing"] if fn.endswith("_internal.com")]
+        if not internal:
+            res["run_error"] = run_error
+            return res
+        res["main"] = internal[0]
+        res["files"] = {internal[0]: open(internal[0]).read()}
+        if os.path.exists("basis.gbs"):
+            res["files"]["basis.gbs"] = open("basis.gbs").read()
+        if mol.solvent is not None:
+            res["solvent_names"] = {"name": mol.solvent.name, "prog": mol.solvent.g09, "dielectric": None}
+        # the first run already "ended": set_properties put the geometry echoed by the program (6 decimals) into the
+        # species before the retry copied the calculation, so that is the geometry the regenerated input must hold
+        res["spec_now"] = {**spec, "atoms": [[a.label] + [float(x) for x in a.coord] for a in mol.atoms]}
+    finally:
+        ade.Config.max_core = old_core
+        os.chdir(here)
+    return res
+
+
+def retry_cases(ctx, rng, n_per_prog, workdir, fail):
+    """Gaussian's automatic retry after `Bend failed for angle` (G09._rerun_angle_failure): the wrapper itself generates
+    <name>_cartesian.com (deliberately unconstrained) and <name>_internal.com, whose output becomes the user's result:
+    the regenerated _internal input must describe the user's species like the first one."""
+    terms, descr = [], []
+    c = 0
+    for prog in ("g09", "g16"):
+        for r in range(n_per_prog):
+            spec = gen_spec(rng, prog, "opt", 8)
+            while not (3 <= len(spec["atoms"]) and all(a[0] in ELEMENTS[:8] for a in spec["atoms"])):
+                spec = gen_spec(rng, prog, "opt", 8)
+            n = len(spec["atoms"])
+            spec.update({"pcs": [], "dist_unit": None, "kwsrc": "custom", "bonds": [], "molecule": True, "max_cycles": None,
+                         "solvent": rng.choice([None, "water"]), "mem_unit": "MB",
+                         "cart": sorted(rng.sample(range(n), rng.choice([1, 2])))})
+            if not spec["dist"]:
+                a, b = sorted(rng.sample(range(n), 2))
+                if all(abs(spec["atoms"][a][k] - spec["atoms"][b][k]) < 1e-3 for k in (1, 2, 3)):
+                    spec["atoms"][b][1] += 1.25
+                spec["dist"] = [[a, b, 1.2345]]
+            res = retry_one(spec, os.path.join(workdir, f"f{c}"))
+            c += 1
+            rep = {"kind": "retry", "spec": spec}
+            ctx.count("retry-inputs", (prog, repr(spec)), res["main"] is not None,
+                      sample={"prog": prog, "n_atoms": n, "files": res["listing"][:8]})
+            ctx.hist("retry-inputs", f"{prog}:{'regenerated' if res['main'] else 'retry-path-not-taken'}")
+            if res["main"] is None:
+                if res.get("run_error"):
+                    ctx.hist("retry-inputs", "run-error:" + res["run_error"].split(":")[0])
+                continue
+            spec_now = res["spec_now"]
+            if any(abs(a[c] - b[c]) > 1e-6 for a, b in zip(spec_now["atoms"], spec["atoms"]) for c in (1, 2, 3)):
+                fail(f"{prog}.rerun_angle_failure|geometry-changed", "the species' geometry after the retried run differs from the "
+                     "geometry the recorder echoed (identical to the input up to 6 decimals)", rep)
+            F, P = check_case(spec_now, res)
+            for k, w in F:
+                site, cls = k.split("|", 1)
+                if cls in PASS_KEYS:
+                    fail(k, w, rep)
+                    continue
+                fail(f"{prog}.rerun_angle_failure|{cls}",
+                     f"input {res['main']} regenerated by the wrapper after `Bend failed for angle`: " + w, rep)
+            if P is not None:
+                t = coq_terms_for(spec_now, res, P, ctx)
                 if t is not None:
                     terms.append(t)
                     descr.append(rep)
@@ -1288,7 +1592,10 @@ def untranslatable_cases(ctx, rng, workdir, fail):
         for other in ["orca", "g09", "qchem", "nwchem", "xtb"]:
             if other == prog or (prog == "g16" and other == "g09"):
                 continue
-            for kcls, nm in ((kws.Functional, "B3LYP"), (kws.BasisSet, "def2-QZVPP"), (kws.DispersionCorrection, "D4X")):
+            for kcls, nm in ((kws.Functional, "B3LYP"), (kws.BasisSet, "def2-QZVPP"), (kws.DispersionCorrection, "D4X"),
+                             (kws.ECP, "def2-ECPX"), (kws.RI, "RIJX"), (kws.WFMethod, "MP2X"), (kws.ImplicitSolventType, "smdx")):
+                if kcls in (kws.ECP, kws.RI, kws.WFMethod, kws.ImplicitSolventType) and other not in ("orca", "g09"):
+                    continue
                 spec = gen_spec(rng, prog, rng.choice(KWTYPES), 4)
                 spec.update({"solvent": None, "pcs": [], "dist": [], "cart": [], "bonds": [], "kwsrc": "custom"})
                 marker = f"zz{other}only{nm.lower().replace('-', '')}"
@@ -1304,6 +1611,33 @@ def untranslatable_cases(ctx, rng, workdir, fail):
                          f"{kw_obj!r} defined only for {other} was accepted for {prog}; the input "
                          f"{'contains the foreign text ' + marker if marker in txt else 'silently lacks it'}",
                          {"kind": "untranslatable", "spec": spec, "keyword": [kcls.__name__, nm, other, marker]})
+    # a keyword defined for Gaussian 16 only is not a Gaussian 09 keyword
+    spec = gen_spec(rng, "g09", "sp", 4)
+    spec.update({"solvent": None, "pcs": [], "dist": [], "cart": [], "bonds": [], "kwsrc": "custom"})
+    kw_obj = kws.Functional(name="B3LYP", g16="zzg16onlyb3lyp")
+    res = run_untranslatable(spec, kw_obj, os.path.join(workdir, f"u{n}"))
+    n += 1
+    ctx.count("untranslatable", ("g09", "g16", "Functional"), True)
+    ctx.hist("untranslatable", res["outcome"].split(":")[0])
+    if res["outcome"].startswith("accepted"):
+        fail("g09.generate_input|untranslatable-keyword-accepted", f"{kw_obj!r} defined only for g16 was accepted for g09",
+             {"kind": "untranslatable", "spec": spec, "keyword": ["Functional", "B3LYP", "g16", "zzg16onlyb3lyp"]})
+    # a keyword translated for the target AND for another program: accepted, the target's text is written, the other's is not
+    for prog in ("orca", "g09", "g16", "nwchem", "qchem"):
+        other = "orca" if prog != "orca" else "qchem"
+        spec = gen_spec(rng, prog, "sp", 4)
+        spec.update({"solvent": None, "pcs": [], "dist": [], "cart": [], "bonds": [], "kwsrc": "custom"})
+        kw_obj = kws.BasisSet(name="def2-QZVPP", **{prog: "zzmine" + prog, other: "zzforeign" + other})
+        res = run_untranslatable(spec, kw_obj, os.path.join(workdir, f"u{n}"))
+        n += 1
+        ctx.count("untranslatable", (prog, "both", "BasisSet"), True)
+        ctx.hist("untranslatable", "both:" + res["outcome"].split(":")[0])
+        txt = " ".join(res["files"].values()).lower()
+        if not res["outcome"].startswith("accepted") or ("zzmine" + prog) not in txt or ("zzforeign" + other) in txt:
+            fail(f"{prog}.generate_input|translated-keyword-not-written",
+                 f"{kw_obj!r} with {prog}='zzmine{prog}' and {other}='zzforeign{other}': outcome {res['outcome']}, "
+                 f"own text {'present' if ('zzmine' + prog) in txt else 'absent'}, foreign text {'present' if ('zzforeign' + other) in txt else 'absent'}",
+                 {"kind": "untranslatable", "spec": spec, "keyword": ["BasisSet", "def2-QZVPP", prog, "zzmine" + prog]})
     return n
 
 
@@ -1357,6 +1691,20 @@ def all_cases(ctx, full):
                       "pcs": [] if prog == "qchem" else [[1.0, 10.0, 1.0, 1.0]],
                       "bonds": [[0, 1]], "n_cores": 8, "max_core_mb": 2048.0, "max_cycles": 10, "molecule": True, "orca_v5": True})
         specs[-1]["mult"] = 1 if (sum(17 if a[0] == "Cl" else 6 for a in atoms)) % 2 == 0 else 2
+    # directed inputs for clauses the random stream reaches only sometimes
+    base = [["O", 0.0, 0.0, 0.0], ["H", 0.96, 0.0, 0.0], ["H", -0.24, 0.93, 0.0], ["C", 2.5, 0.125, -1.0], ["H", 3.1, 0.9, -1.5]]
+    common = {"charge": 0, "mult": 2, "solvent": None, "solv_type": None, "kwsrc": "default", "cart": [], "pcs": [], "bonds": [],
+              "n_cores": 2, "max_core_mb": 2000.0, "max_cycles": None, "molecule": True, "orca_v5": True, "dist_unit": None, "mem_unit": "GB"}
+    for prog in ("orca", "g09", "g16", "qchem", "xtb", "mopac"):       # constraint handed over in nm / pm / bohr
+        for unit in (("nm",) if not full else ("nm", "pm", "a0")):
+            specs.append({**common, "prog": prog, "atoms": [list(a) for a in base], "kwtype": "opt",
+                          "dist": [[0, 3, 1.5]], "dist_unit": unit})
+    for src in sorted(NW_SETS):                                           # NWChem without a dft block, open shell
+        specs.append({**common, "prog": "nwchem", "atoms": [list(a) for a in base], "kwtype": "sp", "kwsrc": src, "mult": 4,
+                      "dist": []})
+    for prog in ("xtb", "mopac", "orca", "g09", "qchem"):                # optimisation cycle limit
+        specs.append({**common, "prog": prog, "atoms": [list(a) for a in base], "kwtype": "opt", "max_cycles": 7, "dist": [],
+                      "mem_unit": "MB"})
     # TS optimisations of solvated species: multi-job / multi-block inputs (Q-Chem: three jobs; ORCA: extra %geom block)
     for prog in PROGS:
         for src, solvent in (("default", "water"), ("custom", "dichloromethane")) + ((("default", "acetonitrile"),) if full else ()):
@@ -1405,7 +1753,7 @@ def run(ctx):
         nonlocal nfail
         nfail += 1
         reported[key] = reported.get(key, 0) + 1
-        if reported[key] <= 1 and len(reported) <= 10:
+        if reported[key] <= 1 and len(reported) <= 30:
             ctx.finding(key, what, rep)
 
     terms, descr = [], []
@@ -1434,11 +1782,17 @@ def run(ctx):
     if proofs_ok:
         terms += xt
         descr += xd
-    rt, rd = regen_cases(ctx, ctx.rng, 8 if full else 3, 30 if full else 10, os.path.join(ctx.work, "regen"), fail)
+    rt, rd = regen_cases(ctx, ctx.rng, 8 if full else 4, 30 if full else 10, os.path.join(ctx.work, "regen"), fail)
     if proofs_ok:
         terms += rt
         descr += rd
-    ctx.log(f"regeneration sequences (register enabled, same directory): {7 * (8 if full else 3)}; oracle failures: {nfail}")
+    ctx.log(f"regeneration sequences (register enabled, same directory): {7 * (8 if full else 4)}; oracle failures: {nfail}")
+    st, sd = sameobj_cases(ctx, ctx.rng, 4 if full else 2, 20 if full else 8, os.path.join(ctx.work, "sameobj"), fail)
+    ft, fd = retry_cases(ctx, ctx.rng, 4 if full else 2, os.path.join(ctx.work, "retry"), fail)
+    if proofs_ok:
+        terms += st + ft
+        descr += sd + fd
+    ctx.log(f"species-updated sequences: {len(sd)}; wrapper-regenerated retry inputs: {len(fd)}; oracle failures: {nfail}")
     explicit_solvent_case(ctx, os.path.join(ctx.work, "explicit"), fail)
     nu = untranslatable_cases(ctx, ctx.rng, os.path.join(ctx.work, "untr"), fail)
     ctx.log(f"xyz cases: {len(xt)}; untranslatable-keyword cases: {nu}; oracle failures: {nfail}")
@@ -1453,22 +1807,36 @@ def run(ctx):
         ctx.log(f"correspondence (Coq readers + writer model on {len(terms)} files): {len(corr_bad)} disagreements"
                 + (f"; coq error {corr_err[:300]}" if corr_err else ""))
         ctx.cov["disagreements"] = len(corr_bad)
-    # 5. decide
+        for d, t in corr_bad[:6]:
+            sp = d.get("spec") or (d.get("specs") or [{}])[-1]
+            ctx.log("  disagreement:", d.get("kind"), sp.get("prog"), sp.get("kwtype"), sp.get("kwsrc"), "dist_unit", sp.get("dist_unit"))
+            with open(os.path.join(VERIF, ".work", "c17_last_disagreement.txt"), "w") as f:
+                f.write(t)
+    # a wrapper that rejects (almost) everything would pass every oracle above: demand a floor of files actually read
+    hist = ctx.cov["streams"].get("generate-input", {}).get("histogram", {})
+    for prog in PROGS:
+        nread = hist.get(f"{prog}:read", 0)
+        ntot = nread + hist.get(f"{prog}:rejected", 0) + hist.get(f"{prog}:error", 0)
+        if ntot and nread * 2 < ntot:
+            ctx.violation(f"{prog}: only {nread} of {ntot} generated cases produced an input file (the rest was rejected): the wrapper "
+                          "is not exercised", {"kind": "acceptance-floor", "prog": prog, "histogram": hist}, found_input=False)
+    # 5. decide (a KNOWN finding is not a new failing input: it never explains a broken proof / disagreement)
+    concrete = len(ctx.violations) > 0
     if not translated:
-        if nfail == 0:
+        if not concrete:
             ctx.violation("the wrappers' print statements are outside the translator's vocabulary (model cannot be regenerated): "
                           + out.strip()[:300], {"kind": "translator", "output": out.strip()[:2000]}, found_input=False)
     elif not proofs_ok:
-        ctx.proof_failure(info, found_any_input=(nfail > 0))
+        ctx.proof_failure(info, found_any_input=concrete)
     if corr_bad or corr_err:
-        if nfail == 0:
+        if not concrete:
             ctx.violation("Coq readers / writer model and the generated files disagree (stream coq-lines) and no implementation-side "
                           "oracle failed", {"kind": "correspondence", "first": [d for d, _ in corr_bad[:3]],
                                             "coq_terms": [t[:3000] for _, t in corr_bad[:1]], "coq_error": corr_err},
                           found_input=False)
         else:
             ctx.log("correspondence disagreements explained by the implementation-level findings above")
-    if pins_changed and nfail_unknown(ctx) == 0 and translated and proofs_ok and not (corr_bad or corr_err):
+    if pins_changed and not concrete and translated and proofs_ok and not (corr_bad or corr_err):
         ctx.violation("hand model no longer pinned to the source: " + ", ".join(pins_changed),
                       {"kind": "source-pin", "changed": pins_changed}, found_input=False)
 
@@ -1501,6 +1869,27 @@ def replay(ctx, obj):
         F = [(k, w) for k, w in F if not k.endswith("written-as-moved-atoms")]
         for k, what in F:
             print("replay (second generate_input in the same directory):", k, "->", what)
+        for fn, txt in res["files"].items():
+            print(f"----- {fn}\n{txt}")
+        n = len(F)
+    elif rep.get("kind") == "sameobj":
+        mol = build_species(rep["specs"][0])
+        run_case(rep["specs"][0], os.path.join(ctx.work, "replay_a"), mol=mol)
+        apply_ops(mol, rep["ops"])
+        res = run_case(rep["specs"][1], os.path.join(ctx.work, "replay_b"), mol=mol)
+        F, P = check_case(rep["specs"][1], res)
+        F = [(k, w) for k, w in F if not k.endswith("written-as-moved-atoms")]
+        for k, what in F:
+            print("replay (input written after", [o for o, _ in rep["ops"]], "on the same species object):", k, "->", what)
+        for fn, txt in res["files"].items():
+            print(f"----- {fn}\n{txt}")
+        n = len(F)
+    elif rep.get("kind") == "retry":
+        res = retry_one(rep["spec"], os.path.join(ctx.work, "replay"))
+        print("replay: files after the run:", res["listing"])
+        F, P = check_case(res["spec_now"], res) if res["main"] else ([("retry-path-not-taken", str(res.get("run_error")))], None)
+        for k, what in F:
+            print("replay (input regenerated by the wrapper after the bend failure):", k, "->", what)
         for fn, txt in res["files"].items():
             print(f"----- {fn}\n{txt}")
         n = len(F)
@@ -1544,20 +1933,28 @@ def replay(ctx, obj):
 
 
 MANIFEST = {
-    "technique": "Coq proof over format templates regenerated from the wrappers' print statements (ast translator) + "
-                 "re-reading of generated input files by independent Python and Coq readers",
+    "technique": "Coq proof over format templates and loop shapes regenerated from the wrappers' print statements (ast translator) + "
+                 "re-reading of generated input files by independent Python and Coq readers; 100+ source pins for the hand-written parts",
     "level_text": ("Machine-checked theorems (coq/C17/Props.v, closed under the global context): fixed-point text of EVERY rational "
                    "is parsed back by an independent parser to the half-even rounded value, within 1/2*10^-d of the exact value "
                    "(no magnitude bound); every coordinate spec in the table generated from the wrappers has >= 5 decimals, so each "
                    "program's documented reader recovers element and coordinates within 1e-5 A; adjacent fields are always separated "
-                   "(fields never merge however wide Python makes them); atom blocks are read back in order for any atom list; each "
-                   "constraint / added-internal printer uses the index base of the target program (ORCA 0; Gaussian, Q-Chem, xTB 1); "
-                   "charge and multiplicity lines are present and read back exactly; point charges are read back."),
-    "level_note": ("PARTIAL: per-program keyword blocks (requested keywords appear, untranslatable Keyword rejected), solvent, core "
-                   "count, memory, the xyz title line, xTB `atoms:` ranges and command-line flags, MOPAC spin keywords / potentials "
-                   "and 'generating a file does not modify the species' are covered by correspondence on generated inputs only, not "
-                   "by theorems; constrained-distance values have a theorem only where printed with a fixed-point spec (xTB prints 4 "
-                   "decimals: 5e-5 A). Trusted: Coq kernel + vm_compute, the translator (validated each run by character-exact "
-                   "comparison of the writer model with the files), the documented layouts / index bases written in Model.v from the "
-                   "programs' manuals, Python's float formatting (modelled on exact rationals; -0.0/nan/inf excluded)."),
+                   "(fields never merge however wide Python makes them); for the generated loop shape (`for atom in <atoms>`, "
+                   "`x, y, z = atom.coord`, no skip) atom blocks are read back in order for any atom list; each constraint / "
+                   "added-internal printer uses the index base of the target program (ORCA 0; Gaussian, Q-Chem, xTB 1); charge and "
+                   "multiplicity LINES are read back exactly; point charges (position and charge) are read back within 1e-5."),
+    "level_note": ("PARTIAL. Theorems are about the text of one line / one loop; WHICH lines are emitted for a given keyword set is not "
+                   "modelled: `charge_mult_lines_read_back_partial` proves readability of the lines and existence of the print "
+                   "statements only (NWChem omits the multiplicity for mp2/ccsd tasks: standing finding). Per-program keyword blocks "
+                   "(requested keywords appear, untranslatable Keyword rejected), solvent, core count, memory and its units, units of "
+                   "constrained distances, the xyz title line, xTB `atoms:` ranges and command line (incl. --input), MOPAC spin "
+                   "keywords / potentials / interpolation, every job of a Q-Chem multi-job input, regeneration in one directory, "
+                   "updates of a live species object, wrapper-regenerated retry inputs and 'generating a file does not modify the "
+                   "species' are covered by implementation oracles / correspondence on generated inputs only. Constrained-distance "
+                   "values have a theorem only where printed with a fixed-point spec (xTB 4 decimals: 5e-5 A). That the list a loop "
+                   "runs over is the species' atom list is correspondence only. NWChem has no constraint syntax in its input (the "
+                   "package's own optimiser applies constraints); G09._run_hessian and the NEB/TS trajectory writers are not run. "
+                   "Trusted: Coq kernel + vm_compute, the translator (validated each run by character-exact comparison of the "
+                   "writer model with the files), the documented layouts / index bases written in Model.v from the programs' "
+                   "manuals, Python's float formatting (modelled on exact rationals; -0.0/nan/inf excluded)."),
 }
